@@ -34,16 +34,18 @@ ASSUMPTIONS = [
     "dense to_choi_from_hs / to_hs_from_choi / process matrix at dim 6 and all of dim 8 only in the thorough tier",
 ]
 BOUNDS = {
-    "quick": "systems Q1,Q1h,Q3,Q3g,Q3h,Q2 all paths, Q6 sparse+dict paths; POVM m in {2,3}; MProcess shapes (2),(3),(2,3),(3,2),(2,2,2); "
-             "lazy-table BFS depth 4 on Q1",
-    "thorough": "adds Q6 dense paths + process matrix, 3 qubits (dim 8) sparse+dict paths, POVM m=4, lazy-table BFS to fixpoint on Q1 and Q3",
+    "quick": "systems Q1,Q1h,Q3,Q3g,Q3h,Q2 all paths, Q6 (qubit x qutrit) and D3,2 (qutrit x qubit) sparse+dict paths; POVM m in {2,3}; MProcess shapes "
+             "(2),(3),(2,3),(3,2),(2,2,2); lazy-table BFS to its fixpoint (450 states) on Q1",
+    "thorough": "adds Q6 dense paths + process matrix, 3 qubits (dim 8, function level), POVM m=4, "
+                "lazy-table BFS to the fixpoint on Q3 as well",
 }
 EXHAUSTIVE = {"quick": True, "thorough": True}
 CASE_TIMEOUT = 900
+CHUNK = 1          # cases are 0.1 .. 20 s each: shard one by one
 
 SMALL = ["Q1", "Q1h", "Q3", "Q3g", "Q3h", "Q2"]
-DIM = {"Q1": 2, "Q1h": 2, "Q3": 3, "Q3g": 3, "Q3h": 3, "Q2": 4, "Q6": 6, "D2,2,2": 8}
-ID_FIRST = {"Q1", "Q3", "Q3g", "Q2", "Q6", "D2,2,2"}
+DIM = {"Q1": 2, "Q1h": 2, "Q3": 3, "Q3g": 3, "Q3h": 3, "Q2": 4, "Q6": 6, "D3,2": 6, "D2,2,2": 8}
+ID_FIRST = {"Q1", "Q3", "Q3g", "Q2", "Q6", "D3,2", "D2,2,2"}
 
 
 def blocks(total, size):
@@ -52,14 +54,14 @@ def blocks(total, size):
 
 def paths_of(tag, thorough):
     """all = dense + dict + sparse + process matrix; nodense = dict + sparse; min = function level only"""
-    if DIM[tag] <= 4 or (thorough and DIM[tag] == 6):
+    if DIM[tag] <= 4 or (thorough and tag == "Q6"):
         return "all"
     return "nodense" if DIM[tag] == 6 else "min"
 
 
 def families(tier, seed):
     thorough = tier == "thorough"
-    systems = SMALL + ["Q6"] + (["D2,2,2"] if thorough else [])
+    systems = SMALL + ["Q6", "D3,2"] + (["D2,2,2"] if thorough else [])
     fams = []
     fams.append(("state", [{"sys": t} for t in systems]))
     fams.append(("povm", [{"sys": t, "m": m} for t in systems for m in ((2, 3, 4) if thorough else (2, 3))
@@ -69,7 +71,7 @@ def families(tier, seed):
     for t in systems:
         n = DIM[t] ** 2
         paths = paths_of(t, thorough)
-        size = 64 if n <= 16 else (16 if paths == "all" else 64)
+        size = 64 if n <= 16 else (16 if paths == "all" else 32)
         for lo, hi in blocks(n * n + 3, size):
             hs_cases.append({"sys": t, "lo": lo, "hi": hi, "paths": paths})
             choi_cases.append({"sys": t, "lo": lo, "hi": hi, "paths": paths})
@@ -94,7 +96,7 @@ def families(tier, seed):
     fams.append(("kraus", [{"sys": t, "name": nm} for t in systems for nm in kraus_names(DIM[t], seed)]))
     fams.append(("truncate", [{"eps": e, "atol": a} for e in (None, 1e-10, 1e-6) for a in (None, 1e-9)]))
     fams.append(("truncate_through", [{"sys": t, "eps": e} for t in ("Q1", "Q3h", "Q2") for e in (None, 1e-7)]))
-    cache = [{"sys": "Q1", "depth": 64 if thorough else 4}]
+    cache = [{"sys": "Q1", "depth": 64}]          # depth 64 > diameter: runs to the fixpoint (450 states)
     if thorough:
         cache.append({"sys": "Q3", "depth": 64})
     fams.append(("cache", cache))
@@ -120,6 +122,8 @@ def guards(summary):
     for k in need:
         if info.get(k, 0) < 1:
             g.append("never observed: %s" % k)
+    if info.get("cache_fixpoint", 0) != summary["families"].get("cache", 0):
+        g.append("lazy-table BFS did not reach its fixpoint")
     if info.get("multi_setup_failed", 0):
         g.append("tensor-product POVM for the multi-index accessor could not be built")
     return g
